@@ -35,7 +35,8 @@ RULE = ('Real threads under a cooperative scheduler that owns the schedule: '
         'trace (rooms, pending_disconnect, callbacks), the bystander and the '
         "victim's other namespace are untouched. Non-trivial: a schedule "
         'with at least one switch between one actor\'s connected-check and '
-        'its mark.')
+        'its mark.'
+        " A further sampled family disconnects the victim's neighbour on the same namespace concurrently (the bookkeeping of a namespace is shared by its clients); sampled schedules have choice lists of a minimum length.")
 ASSUMPTIONS = [
     'pre-emption at the granularity of instrumented operations (manager '
     'methods, transport sends, accesses to the table of pending '
